@@ -716,7 +716,7 @@ def run_shard(spec, seed, tier):
         res.stages["enumeration"] = n
         return res
     if spec[0] == "atheris":
-        run_atheris(res, kf, seed, 250_000)
+        run_atheris(res, kf, seed, 150_000)
         return res
 
     def body(case):
